@@ -7,7 +7,8 @@ S=$1
 W=$(mktemp -d /tmp/vfwt.XXXXXX)
 git -C /repo worktree add -q --detach $W HEAD || exit 9
 trap 'git -C /repo worktree remove --force $W >/dev/null 2>&1; rm -rf $W' EXIT
-LOC=$(cat $S/demo_location.txt | tr -d '[:space:]')
+LOC=$(head -1 $S/demo_location.txt | awk '{print $1}'); LOC=${LOC#/tmp/wt_*/}; LOC=${LOC#./}
+case "$LOC" in *_test.go) LOC=$(dirname $LOC);; esac
 DEMO=$(ls $S/*_test.go | head -1)
 cd $W
 cp $DEMO $LOC/zz_seed_demo_test.go
